@@ -26,5 +26,9 @@ def run(ctx):
         consts.rule_pairing_constants(ctx, cfg, prog)
         e = formulas.rule_exponents_gt(ctx, cfg, prog, which=('final',))
         ctx.floor('R-POLY/exp final exponentiation[%s]' % cfg, e, 2)
+        from .. import ccl
+        nt = ccl.rule_ccl(ctx, cfg, prog, schedule=True)
+        ctx.floor('R-CCL trace events[%s]' % cfg, nt, 250)
+        ccl.rule_product_shape(ctx, cfg, prog)
         ln = formulas.rule_miller_lines(ctx, cfg, prog)
         ctx.floor('R-POLY/line obligations[%s]' % cfg, ln, 6)
